@@ -2,29 +2,37 @@ PROPS["C20"] = dict(
     pkg="p_zip", hooks=[], level="exploration", design="DESIGN.md §4 C20",
     technique="round-trip PBT (rapid) over generated directory trees compared file by file; sandbox-snapshot invariant over "
               "generated and systematically enumerated hostile archives written with archive/zip directly",
-    rule="two case kinds. tree case = (directories nested to depth <= 4, 0..25 regular files; file and directory names are byte strings: ASCII letters/digits, "
+    rule="two case kinds. tree case = (directories nested to depth <= 4, 0..25 regular files plus up to 6 entries with RELATED names (see below); file and directory names are byte strings: ASCII letters/digits, "
          "spaces, inner and leading dots, unicode, up to 200 bytes, and arbitrary bytes 0x01..0xFF (invalid UTF-8: Latin-1, lone continuation bytes, "
          "truncated and overlong sequences, 0xFE/0xFF; control characters; backslash; a literal U+FFFD; siblings that differ only in such bytes), "
-         "never '.', '..', NUL or '/'; contents empty / random bytes / zero runs / "
+         "never '.', '..', NUL or '/'; related names: in half of the trees 1..6 extra entries are named after an entry the tree already has and put into the same "
+         "directory - a file next to a file, a file next to a directory (named like the directory plus an affix), a directory next to a file - the name being the other "
+         "name with a prefix and/or a suffix added (the usual marks of helper files: '.', '~', '#', '_', '.#', '._', 'tmp', ... / '.tmp', '.bak', '.part', '.swp', '~', "
+         "'.lock', '.orig', trailing dots and spaces, ... or free strings over such characters), with leading marks, the last extension or trailing dots/spaces "
+         "removed, or in another letter case; chains (a name derived from a derived name) occur; contents empty / random bytes / zero runs / "
          "sizes around 4K, 32K, 64K / at most two files of about 1 MB; filter in {nil, path suffix, keep-only directory component, "
          "exclude directory component, reject all}; recursive flag; source dir spelled as a clean absolute path with or without ONE "
          "trailing slash; destination absent, empty, or pre-populated with regular files at the relative paths of source files - longer, "
-         "shorter, same length, empty, arbitrary - and with unrelated files; optionally a second round: source files shrunk/grown/emptied/"
-         "rewritten/deleted, then ZipFolder+UnzipToFolder again into the same destination). Excluded as outside the documented domain: relative or unclean source paths, "
+         "shorter, same length, empty, arbitrary - and with unrelated files; in a third of the cases 1..3 further rounds within the same process into the SAME destination path "
+         "string: before each, 0..3 removals under the destination (the whole directory, all its contents, one drawn sub-folder, one drawn file), then source files "
+         "shrunk/grown/emptied/rewritten/deleted or a new file added next to an existing one under a related name - or no edit at all (the same archive again) - then "
+         "ZipFolder+UnzipToFolder again, compared with the model after every round). Excluded as outside the documented domain: relative or unclean source paths, "
          "double slashes, symlinks, devices, unreadable files, the archive placed inside the source dir. "
          "archive case = list of zip entries (name, kind file/dir/symlink mode bits, payload, stored or deflated) written with archive/zip, "
          "optionally with 1..3 corrupted bytes; names from '..', '.', empty and plain segments joined by '/' or '\\\\', up to 8 leading '../', "
          "absolute prefixes ('/', '//', the sandbox root, the destination itself), trailing slash, duplicates and file/dir clashes; the "
          "exhaustive unit runs every ordered list of length <= 2 (thorough: <= 3) over a systematic alphabet of 65 hostile entries. non-trivial = tree with >= 1 file in a sub-directory and >= 1 empty or filtered-out file, or an "
-         "extraction over a longer file at the path of a selected one, or archive with >= 1 entry "
+         "extraction over a longer file at the path of a selected one, or two selected sibling files one named like the other wrapped in a prefix and a suffix, or a later "
+         "round that must put a selected file into a folder removed from the destination in between, or archive with >= 1 entry "
          "whose cleaned joined name leaves the destination; distinct = FNV hash of the JSON form of the case",
     assumptions=["oracle (a): map relPath->content of the regular files under the destination == the source's regular files for which "
                  "filter(clean source dir + '/' + relPath) is true (nil filter = all) and, when recursive is false, that sit directly in the "
                  "source dir; directories (empty or not) are not compared; both calls must return nil. When the destination held regular files "
-                 "before the extraction (pre-populated, or left by round 1): every selected file must have exactly the source content afterwards; "
+                 "before the extraction (pre-populated, or left by an earlier round and not removed since): every selected file must have exactly the source content afterwards; "
                  "'nothing else' is judged on what the extraction adds - a file that was there before and is not selected is not an extra file, "
                  "but must be byte-identical afterwards; pre-existing directories where a file must go (or files where a directory must go) are "
-                 "not generated",
+                 "not generated. Removals between rounds only take away regular files and whole folders of the destination (the model forgets them); "
+                 "an extraction must succeed and give the same result whatever this process extracted before (no state outside the file system)",
                  "oracle (b): the destination is sandbox/d1/.../d8; (path, type, permission bits, and for non-directories size, mtime, content hash) "
                  "of everything in the sandbox outside the destination subtree - decoy files and directories at every level, the archive "
                  "itself - is identical before and after UnzipToFolder, whatever it returns; absolute targets outside the sandbox are watched "
@@ -43,9 +51,9 @@ PROPS["C20"] = dict(
 )
 
 LEVEL_TEXT["C20"] = (
-    "Generated-input search with exact oracles: thousands of random directory trees (odd names, empty, binary and large files, every "
+    "Generated-input search with exact oracles: thousands of random directory trees (odd names, sibling names derived from one another by helper-file prefixes and suffixes, empty, binary and large files, every "
     "filter kind, both values of the recursive flag, both spellings of the source dir) are zipped, unzipped and compared file by file "
-    "with the selected part of the source; every ordered combination of a systematic set of hostile zip entries up to a length bound "
+    "with the selected part of the source, in a third of the cases over several rounds into one destination path with parts of the destination removed in between; every ordered combination of a systematic set of hostile zip entries up to a length bound "
     "plus thousands of random hostile archives are extracted eight levels deep inside a sandbox whose complete state outside the "
     "destination is compared before and after. No counterexample among the cases counted in the evidence; not a proof for other "
     "name shapes, other file systems or platforms."
